@@ -219,8 +219,10 @@ def check_actor(ctx, a, where):
     pg, k, m = a.pgpy, a.k, a.m
     ctx.count('steps_checked')
     ctx.count('evaluations')
-    kc = copy.copy(k)
-    pub = kc.pubkey
+    kc = k
+    # the real accessor, with every twin handed out earlier still alive (an implementation that caches twins must keep them current)
+    pub = k.pubkey
+    a.__dict__.setdefault('twins', []).append(pub)
     blob = bytes(pub)
     # (1) every self-issued signature verifies: reference over the export ...
     st = {}
